@@ -31,7 +31,7 @@ def has_sym(v):
 
 
 class Outcome:
-    __slots__ = ("next_state", "actions", "result", "arm", "loc", "arm_line")
+    __slots__ = ("next_state", "actions", "result", "arm", "loc", "arm_line", "tails", "tail_args")
 
     def __init__(self):
         self.next_state = None     # variant name or None (unchanged)
@@ -40,6 +40,8 @@ class Outcome:
         self.arm = None
         self.loc = None
         self.arm_line = None
+        self.tails = []            # dispatcher functions tail-called, in order
+        self.tail_args = []
 
     def key(self):
         return (self.next_state, tuple(self.actions), repr(self.result))
@@ -262,6 +264,8 @@ class ParserTables:
                 if recv == ("self",):
                     args = [self.ev(a, env, out) for a in e["args"]]
                     if "parser::Function" in outty:
+                        out.tails.append(callee)
+                        out.tail_args.append(tuple(args))
                         return self.run_fn(callee, args, env, out)
                     # bookkeeping action
                     out.actions.append(self.classify_action(callee))
@@ -430,7 +434,7 @@ class ParserTables:
         if key not in self._cells:
             lo = self.step(state, a[0])
             hi = self.step(state, a[1] - 1)
-            if lo.next_state != hi.next_state or lo.actions != hi.actions or (lo.result is None) != (hi.result is None) or lo.arm != hi.arm:
+            if lo.next_state != hi.next_state or lo.actions != hi.actions or lo.arm != hi.arm or lo.tails[:1] != hi.tails[:1]:
                 raise H.Unsupported("atom U+%04X..U+%04X of state %s is not uniform" % (a[0], a[1] - 1, state))
             c = CellView(state, a, lo, self)
             self._cells[key] = c
@@ -450,6 +454,8 @@ class CellView:
         self.actions = list(out.actions)
         self.result = out.result
         self.arm = out.arm
+        self.tails = list(out.tails)
+        self.tail_args = list(out.tail_args)
         f = tb.w.facts.fns.get(tb.feed_fn, {})
         self.loc = "%s:%s" % (tb.w.facts.rel(f.get("loc", {}).get("file", "")), out.arm_line)
 
